@@ -88,13 +88,14 @@ func (s Str) String() string {
 
 // Obj is a heap object: a flat vector of one-cell values.
 type Obj struct {
-	cells []Value
-	n     int
-	pages [][]Value // when cells == nil: pages of pageSize cells, nil = all zero
-	zero  Value
-	epoch int
-	id    int
-	typ   types.Type
+	cells  []Value
+	n      int
+	pages  [][]Value // when cells == nil: pages of pageSize cells, nil = all zero
+	zero   Value
+	global bool // storage of a package-level variable
+	epoch  int
+	id     int
+	typ    types.Type
 }
 
 // Ptr is a pointer into an object (cell offset). A nil pointer has obj==nil.
